@@ -186,8 +186,17 @@ class ShiftedServer(QueuedResource):
         if next_t is None:
             return None
 
+        # Instant.from_seconds() truncates to whole nanoseconds.  Fire at the
+        # first instant that is not before the boundary: otherwise the boundary
+        # is still "in the future" when the event is delivered, the old capacity
+        # stays in force and the same transition is re-scheduled at the same
+        # instant forever.
+        at = Instant.from_seconds(next_t)
+        while at.to_seconds() < next_t:
+            at = Instant(at.nanoseconds + 1)
+
         return Event(
-            time=Instant.from_seconds(next_t),
+            time=at,
             event_type=_SHIFT_CHANGE,
             target=self,
             daemon=True,
